@@ -372,7 +372,9 @@ pub fn make_module() -> KMap {
             (KValue::List(l), [f]) if f.is_callable() => {
                 let l = l.clone();
 
-                let sorted = sort_by_key(ctx.vm, l.data().as_ref(), f.clone())?;
+                // The key function might access the list, so the list isn't borrowed while it's called
+                let values: Vec<_> = l.data().iter().cloned().collect();
+                let sorted = sort_by_key(ctx.vm, &values, f.clone())?;
 
                 for (target_value, (_key, source_value)) in
                     l.data_mut().iter_mut().zip(sorted.into_iter())
@@ -415,11 +417,15 @@ pub fn make_module() -> KMap {
                 let l = l.clone();
                 let f = f.clone();
 
-                for value in l.data_mut().iter_mut() {
-                    *value = match ctx.vm.call_function(f.clone(), value.clone()) {
-                        Ok(result) => result,
-                        Err(error) => return Err(error),
-                    }
+                // The function might access the list, so the list isn't borrowed while it's called
+                let values: Vec<_> = l.data().iter().cloned().collect();
+                let mut transformed = Vec::with_capacity(values.len());
+                for value in values {
+                    transformed.push(ctx.vm.call_function(f.clone(), value)?);
+                }
+
+                for (target, value) in l.data_mut().iter_mut().zip(transformed) {
+                    *target = value;
                 }
 
                 Ok(KValue::List(l))
